@@ -103,19 +103,21 @@ def judge (req ans : List String) : Option Complaints :=
       let extra ← (match a, rest with
         | .ok _, [p] => (unhex p).map (judgeReprint txt)
         | _, _ => some [])
-      pure (judgeParse T txt a ++ extra)
+      pure (judgeParse T txt a ++ extra ++ judgeGrammarReject txt false a)
   | ["parse_fmt", t, cap, frs, fault], [a] => do
       let T ← Ty.ofName t; let frs ← parseFrags frs; let a ← parsePAns a
-      pure (judgeParseFmt T (parseCap cap) frs fault a)
+      pure (judgeParseFmt T (parseCap cap) frs fault a ++
+            (if fault.startsWith "fail" then [] else
+              (judgeGrammarReject frs.flatten true a).map fun (_, w) => ("C14", s!"[C06] {w}")))
   | ["format", _, b], ["panic"] => do let b ← unhex b; pure (judgeFormat b none)
-  | ["format", _, b], ["ok", txt, same] => do
+  | ["format", t, b], ["ok", txt, same] => do
       let b ← unhex b; let txt ← unhex txt
       -- `same` is `1` (Debug text identical to the Display text) or `d<hex>`: the Debug text, judged like the Display text
       -- (C02 asks both to denote the pattern's value, not to be the same text)
       let dbg ← (if same == "1" then some [] else if same.startsWith "d" then
                    (unhex (same.drop 1).toString).map (fun d => (judgeFormat b (some d)).map fun (p, w) => (p, "Debug: " ++ w))
                  else some [("C02", "Debug text missing")])
-      pure (judgeFormat b (some txt) ++ dbg)
+      pure (judgeFormat b (some txt) ++ dbg ++ (match Ty.ofName t with | some T => judgeWithinLimits T txt | none => []))
   | ["roundtrip", _, b], ["panic"] => do let b ← unhex b; pure (judgeFormat b none)
   | ["roundtrip", t, b], ["ok", txt, back, stable] => do
       let T ← Ty.ofName t; let b ← unhex b; let txt ← unhex txt; let back ← parsePAns back
@@ -130,7 +132,7 @@ def judge (req ans : List String) : Option Complaints :=
       | _ => none
   | ["to_int", _, b, i], [a] => do
       let b ← unhex b; let I ← IntTy.ofName i; let a ← parseOAns a
-      pure (judgeToInt b I a)
+      pure (judgeToInt b I a ++ judgeClassAgree b (judgeToInt b I a))
   | ["from_int", t, i, v], a :: rest => do
       let T ← Ty.ofName t; let I ← IntTy.ofName i; let v ← parseInt v; let a ← parsePAns a
       match a, rest with
@@ -142,7 +144,7 @@ def judge (req ans : List String) : Option Complaints :=
       | _, _ => pure (judgeFromInt T I v a [] .none)
   | ["to_float", t, b, f], [a] => do
       let T ← Ty.ofName t; let b ← unhex b; let B ← BinFmt.ofName f; let a ← parseFAns a
-      pure (judgeToFloat T b B a)
+      pure (judgeToFloat T b B a ++ judgeClassAgree b (judgeToFloat T b B a))
   | ["from_float", t, f, bits, ryu], a :: rest => do
       let T ← Ty.ofName t; let B ← BinFmt.ofName f; let bits ← hexNat bits; let ryu ← unhex ryu
       let a ← parsePAns a
